@@ -97,13 +97,17 @@ def _eq(a, b):
     return z3.And(*[_zi(getattr(a, f)) == _zi(getattr(b, f)) for f in dates._FIELDS])
 
 
-def h_fixed(lang, locale, phrase, canon):
+def h_fixed(lang, locale, phrase, canon, warm=False):
+    """warm: the BASE language is used first, with the same settings (what a process that handled the language before a
+    regional locale of it looks like)"""
     def fn():
         b = C.sym_base("b")
         if _directionless(canon) and _open(FID2):
             # region of the open finding (re-confirmed natively from its listed example on every run)
             core.assume(mkbool(z3.And(_zi(b.year) >= MARGIN[0], _zi(b.year) <= MARGIN[1])))
         st = {"RELATIVE_BASE": b}
+        if warm and locale:
+            C.api(phrase, languages=[lang], settings=st)
         x = C.api(phrase, languages=None if locale else [lang], locales=[locale] if locale else None, settings=st)
         y = C.api(canon, languages=["en"], settings=st)
         wit = C.base_witness(b)
@@ -111,7 +115,7 @@ def h_fixed(lang, locale, phrase, canon):
     return fn
 
 
-def h_counted(lang, locale, pre, suf, canon, width):
+def h_counted(lang, locale, pre, suf, canon, width, warm=False):
     def fn():
         b = C.sym_base("b")
         if _directionless(canon) and _open(FID2):
@@ -121,6 +125,8 @@ def h_counted(lang, locale, pre, suf, canon, width):
         s = tmpl([pre, ("n", width), suf], {"n": n})
         cpre, csuf = canon.split("\\1")
         c = tmpl([cpre, ("n", width), csuf], {"n": n})
+        if warm and locale:
+            C.api(c, languages=[lang], settings=st)
         x = C.api(s, languages=None if locale else [lang], locales=[locale] if locale else None, settings=st)
         y = C.api(c, languages=["en"], settings=st)
         wit = dict(C.base_witness(b), n=n)
@@ -167,6 +173,9 @@ def tasks(tier, seed):
         visited.add((code, w))
         out.append({"name": "fixed:%s:%s" % (code, w), "fn": "h_fixed", "budget_s": 90 if quick else 400, "max_paths": 3000,
                     "args": {"lang": lang, "locale": locale, "phrase": w, "canon": canon}})
+        if locale:
+            out.append({"name": "fixed-after-base:%s:%s" % (code, w), "fn": "h_fixed", "budget_s": 90 if quick else 400,
+                        "max_paths": 3000, "args": {"lang": lang, "locale": locale, "phrase": w, "canon": canon, "warm": True}})
 
     def add_counted(lang, locale, pre, suf, canon, width):
         code = locale or lang
@@ -176,6 +185,10 @@ def tasks(tier, seed):
         visited.add(key)
         out.append({"name": "counted:%s:%s#%s:w%d" % (code, pre, suf, width), "fn": "h_counted", "budget_s": 90 if quick else 400,
                     "max_paths": 3000, "args": {"lang": lang, "locale": locale, "pre": pre, "suf": suf, "canon": canon, "width": width}})
+        if locale:
+            out.append({"name": "counted-after-base:%s:%s#%s:w%d" % (code, pre, suf, width), "fn": "h_counted",
+                        "budget_s": 90 if quick else 400, "max_paths": 3000,
+                        "args": {"lang": lang, "locale": locale, "pre": pre, "suf": suf, "canon": canon, "width": width, "warm": True}})
     langs = list(order)
     if quick:
         k = 6
@@ -203,6 +216,18 @@ def tasks(tier, seed):
     ext = [(lang, loc) for lang in order for loc in locd.get(lang, [])
            if set(C.language_info(lang).get("locale_specific", {}).get(loc, {})) & {"relative-type", "relative-type-regex"}]
     for lang, loc in ext:
+        # the locale's OWN additions (fixed phrases and counted patterns its overlay adds)
+        base_f = {w for w, _ in fixed_phrases(lang)}
+        base_c = {(pre, suf) for pre, suf, _ in counted_patterns(lang)[0]}
+        own_f = [(w, c) for w, c in fixed_phrases(lang, loc) if w not in base_f]
+        own_c = [(pre, suf, c) for pre, suf, c in counted_patterns(lang, loc)[0] if (pre, suf) not in base_c]
+        if quick:
+            own_f = [own_f[(seed + 3 * j) % len(own_f)] for j in range(min(3, len(own_f)))] if own_f else []
+            own_c = [own_c[(seed + 3 * j) % len(own_c)] for j in range(min(2, len(own_c)))] if own_c else []
+        for w, canon in own_f:
+            add_fixed(lang, loc, w, canon)
+        for pre, suf, canon in own_c:
+            add_counted(lang, loc, pre, suf, canon, 2)
         fxs, cps = inherited_under_extended_keys(lang, loc)
         if quick:
             fxs = [fxs[(seed + 3 * j) % len(fxs)] for j in range(min(3, len(fxs)))] if fxs else []
@@ -254,10 +279,14 @@ def native_check(spec):
     a = spec["args"]
     st = {"RELATIVE_BASE": spec["base"]} if spec.get("base") else {}
     kw = {"locales": [a["locale"]]} if a["locale"] else {"languages": [a["lang"]]}
+    if a.get("warm") and a["locale"]:
+        # the base language is used first, with the same settings (same process)
+        native.call_api({"string": spec["phrase"] if spec["fn"] == "h_fixed" else spec["canon"], "languages": [a["lang"]], "settings": st})
     x = native.call_api(dict({"string": spec["phrase"], "settings": st}, **kw))
     y = native.call_api({"string": spec["canon"], "languages": ["en"], "settings": st})
     code = a["locale"] or a["lang"]
-    desc = "parse(%r, %s, base=%r) -> %r ; parse(%r, ['en']) -> %r" % (
+    desc = "%sparse(%r, %s, base=%r) -> %r ; parse(%r, ['en']) -> %r" % (
+        ("after a call with languages=[%r] and the same settings: " % a["lang"]) if a.get("warm") and a["locale"] else "",
         spec["phrase"], code, spec.get("base"), x.get("date_obj", x.get("exception")), spec["canon"], y.get("date_obj", y.get("exception")))
     if "exception" in x or "exception" in y:
         return {"violates": True, "detail": desc}
